@@ -11,7 +11,15 @@
 // merged tree is compared with the spec's (order free), and a seeded reservoir sample of (row order, observed tree and
 // levels) is written out to be validated by TLC against ProfTree.tla (MC_ProfTreeObs).
 //
-//	c16 run -cases cases.ndjson -out result.json -obs <dir> -seed S [-permmax N] [-obsmax N]
+// Depth: a seeded part of the cases (every case.deep-th / -deepmod-th) is run a second time STRETCHED to real depths by the
+// map ProfTree.tla proves to commute with build / merge / layout on the small cases (SBag, STree, SRows, SLevels): the
+// abstract level case.cap (ProfTree!LevelCap) gets as many real frames as the writer's level clamp of the node ids (probed:
+// the level field of the ids of a very deep stack saturates there; 511) or one less / one more / another bit-width
+// boundary, the levels beyond it 1..thousands of frames; frames of a chain are one recursive function, a cycle of
+// mutually recursive functions or all distinct functions.  The stretched expectation (tree per profile, merged tree,
+// canonical layouts) and the statement's clauses read directly off the real rows are compared exactly as for the plain case.
+//
+//	c16 run -cases cases.ndjson -out result.json -obs <dir> -seed S [-permmax N] [-obsmax N] [-deepmod N] [-levelclamp N]
 package main
 
 import (
@@ -28,6 +36,7 @@ import (
 	"path/filepath"
 	"runtime"
 	"sort"
+	"strconv"
 	"strings"
 	"sync"
 
@@ -71,6 +80,8 @@ type RowRef struct {
 type Case struct {
 	Cfg     string     `json:"cfg"`
 	K       int        `json:"k"`
+	Cap     int        `json:"cap"`  // ProfTree!LevelCap of the configuration: the abstract level that stands for the code's level clamp
+	Deep    int        `json:"deep"` // > 0: every Deep-th case of this configuration (by content hash and seed) is also run depth-stretched
 	Profs   [][]Sample `json:"profs"`
 	Trees   [][]Node   `json:"trees"`
 	Sums    [][]int64  `json:"sums"`
@@ -94,6 +105,7 @@ type Mismatch struct {
 	Concrete  interface{} `json:"concrete"`
 	Expected  interface{} `json:"expected,omitempty"`
 	Observed  interface{} `json:"observed,omitempty"`
+	Weight    int         `json:"-"` // stretched case: frames of the case (smaller witnesses are kept)
 }
 type Obs struct {
 	Case   int        `json:"case"`
@@ -128,6 +140,8 @@ type Result struct {
 	Sample          interface{}            `json:"sample"`
 	NamePoolUsed    map[string]int         `json:"name_pool_used"`
 	OrdersPerCaseMx int                    `json:"orders_per_case_max"`
+	StretchedNodes  int                    `json:"stretched_nodes_expected"`
+	LevelClamp      map[string]int         `json:"level_clamp"`
 }
 
 func newResult() Result {
@@ -143,12 +157,12 @@ type worker struct {
 }
 
 func newWorker(obsmax int) *worker {
-	return &worker{res: newResult(), aux: auxStats{PanicMsgs: map[string]int{}, PanicByClass: map[string]int{}}, resv: map[int]*reservoir{1: {max: obsmax}, 2: {max: obsmax}, 3: {max: obsmax}}}
+	return &worker{res: newResult(), aux: auxStats{PanicMsgs: map[string]int{}, PanicByClass: map[string]int{}, DeepRefusals: map[string]int{}}, resv: map[int]*reservoir{1: {max: obsmax}, 2: {max: obsmax}, 3: {max: obsmax}}}
 }
 
 func absSize(m *Mismatch) int {
 	b, _ := json.Marshal(m.Abstract)
-	return len(b)
+	return len(b) + m.Weight
 }
 
 // report keeps, per signature, the three smallest witnesses this worker has seen.
@@ -183,9 +197,15 @@ var typePool = [][2]string{{"cpu", "nanoseconds"}, {"samples", "count"}, {"alloc
 type Concrete struct {
 	Names map[string]string // atom -> concrete name (or noLine)
 	Types [][2]string
+	Base  *Concrete // stretched case: the concretisation of the abstract atoms (frame k > 0 of a chain of f is named name(f)·k)
 }
 
 func (c *Concrete) display() map[string]interface{} {
+	if c.Base != nil {
+		d := c.Base.display()
+		d["chain_frames"] = "frame k > 0 of a cycle of f is the function named name(f)\u00b7k"
+		return d
+	}
 	n := map[string]string{}
 	for a, v := range c.Names {
 		if v == noLine {
@@ -276,7 +296,7 @@ func buildPprof(rng *rand.Rand, c *Concrete, k int, prof []Sample) *pprof.Profil
 			smp := &pprof.Sample{Value: append([]int64(nil), s.Val...)}
 			for _, atom := range s.Stack {
 				var l *pprof.Location
-				if ls := locs[atom]; len(ls) > 0 && rng.Intn(3) != 0 {
+				if ls := locs[atom]; len(ls) > 0 && (rng.Intn(3) != 0 || (len(s.Stack) > 64 && rng.Intn(16) != 0)) {
 					l = ls[rng.Intn(len(ls))]
 				} else {
 					l = newLoc(atom)
@@ -363,8 +383,10 @@ type realNode struct {
 	Self, Total    []int64 // per sample type of the case, by name lookup (arrayFirst semantics of the reader SQL)
 }
 
-// resolve maps the stored rows of one profile to abstract paths by following parent ids and function names.
-func resolve(c *Concrete, atoms []string, k int, pd *wmodel.ProfileData) (map[uint64]*realNode, string) {
+// resolve maps the stored rows of one profile to the ids of the expected tree by following parent ids and function
+// names from the root: trie holds key(parent id)+"\x00"+function symbol -> id of the expected (merged) tree; a stored
+// node the expected tree does not have gets the id parent+symbol (marked "?" in a stretched case, whose ids are compact).
+func resolve(c *Concrete, atoms []string, k int, pd *wmodel.ProfileData, trie map[string][]string, stretched bool) (map[uint64]*realNode, string) {
 	name2atom := map[string]string{}
 	for _, a := range atoms {
 		name2atom[c.realName(a)] = a
@@ -392,40 +414,44 @@ func resolve(c *Concrete, atoms []string, k int, pd *wmodel.ProfileData) (map[ui
 		}
 		nodes[t.Field3] = n
 	}
-	var path func(n *realNode, depth int) ([]string, string)
-	path = func(n *realNode, depth int) ([]string, string) {
-		if n.Path != nil {
-			return n.Path, ""
-		}
-		if depth > 64 {
-			return nil, "parent chain does not end at the root"
-		}
-		nm, ok := fnName[n.Fn]
-		if !ok {
-			return nil, fmt.Sprintf("node %d refers to function id %d which is not in the function rows", n.ID, n.Fn)
-		}
-		atom, ok := name2atom[nm]
-		if !ok {
-			return nil, fmt.Sprintf("function name %q is none of the profile's functions", nm)
-		}
-		var pp []string
-		if n.Parent != 0 {
-			par, ok := nodes[n.Parent]
+	for _, start := range nodes {
+		// climb to the first ancestor whose path is known (or the root), then name the chain top down
+		var chain []*realNode
+		for cur := start; cur.Path == nil; {
+			chain = append(chain, cur)
+			if len(chain) > len(nodes) {
+				return nil, "parent chain does not end at the root"
+			}
+			if cur.Parent == 0 {
+				break
+			}
+			par, ok := nodes[cur.Parent]
 			if !ok {
-				return nil, fmt.Sprintf("node %d has parent %d which is not stored", n.ID, n.Parent)
+				return nil, fmt.Sprintf("node %d has parent %d which is not stored", cur.ID, cur.Parent)
 			}
-			var e string
-			pp, e = path(par, depth+1)
-			if e != "" {
-				return nil, e
-			}
+			cur = par
 		}
-		n.Path = append(append([]string{}, pp...), atom)
-		return n.Path, ""
-	}
-	for _, n := range nodes {
-		if _, e := path(n, 0); e != "" {
-			return nil, e
+		for i := len(chain) - 1; i >= 0; i-- {
+			n := chain[i]
+			nm, ok := fnName[n.Fn]
+			if !ok {
+				return nil, fmt.Sprintf("node %d refers to function id %d which is not in the function rows", n.ID, n.Fn)
+			}
+			atom, ok := name2atom[nm]
+			if !ok {
+				return nil, fmt.Sprintf("function name %q is none of the profile's functions", nm)
+			}
+			var pp []string
+			if n.Parent != 0 {
+				pp = nodes[n.Parent].Path
+			}
+			if id, ok := trie[key(pp)+"\x00"+atom]; ok {
+				n.Path = id
+			} else if stretched {
+				n.Path = append(append([]string{}, pp...), "?"+atom)
+			} else {
+				n.Path = append(append([]string{}, pp...), atom)
+			}
 		}
 	}
 	return nodes, ""
@@ -453,7 +479,7 @@ type readerOut struct {
 }
 
 // runReader feeds the rows (in the given order, cut into calls by chunks) to the real MergeTrie, then BFS.
-func runReader(c *Concrete, atoms []string, id2path map[uint64][]string, rows [][]any, chunks []int, fns [][]any, ty int) (out readerOut) {
+func runReader(c *Concrete, atoms []string, id2path map[uint64][]string, fnOf map[string]string, rows [][]any, chunks []int, fns [][]any, ty int) (out readerOut) {
 	defer func() {
 		if r := recover(); r != nil {
 			out.Err = fmt.Sprintf("panic: %v", r)
@@ -486,7 +512,8 @@ func runReader(c *Concrete, atoms []string, id2path map[uint64][]string, rows []
 				out.Err = fmt.Sprintf("merged tree has unknown node id %d", kid.NodeID)
 				return
 			}
-			if _, dup := out.Tree[key(p)]; dup {
+			kp := key(p)
+			if _, dup := out.Tree[kp]; dup {
 				out.Err = fmt.Sprintf("merged tree holds node %v twice", p)
 				return
 			}
@@ -495,14 +522,16 @@ func runReader(c *Concrete, atoms []string, id2path map[uint64][]string, rows []
 				return
 			}
 			fn := "?"
-			if len(p) > 0 {
+			if f, ok := fnOf[kp]; ok {
+				fn = f
+			} else if len(p) > 0 {
 				fn = p[len(p)-1]
 			}
 			if idx, ok := t.NamesMap[kid.FnID]; !ok || idx >= len(t.Names) || t.Names[idx] != c.realName(fn) {
 				out.Err = fmt.Sprintf("merged node %v: function id %d does not resolve to name %q", p, kid.FnID, c.realName(fn))
 				return
 			}
-			out.Tree[key(p)] = ObsNode{ID: p, Parent: append([]string{}, pp...), Fn: fn, Self: kid.Self[0], Total: kid.Total[0]}
+			out.Tree[kp] = ObsNode{ID: p, Parent: append([]string{}, pp...), Fn: fn, Self: kid.Self[0], Total: kid.Total[0]}
 		}
 	}
 	name2atom := map[string]string{}
@@ -686,6 +715,359 @@ func (r *reservoir) trim() {
 	}
 }
 
+// ---------- depth stretching (ProfTree.tla: Chain / SPath / SBag / STree / SRows / SLevels) ----------
+//
+// TLC enumerates call paths of a few levels around the abstract clamp level LevelCap and proves on them that building,
+// merging and laying out commute with stretching every level l into a chain of R[l] frames (StretchHom, StretchLayout).
+// The driver applies that same map with real sizes: the levels 1..LevelCap together get as many frames as the code's
+// level clamp (or one less / one more, or another bit-width boundary), the levels beyond it 1..thousands, so the
+// abstract stacks below / at / beyond LevelCap become real stacks below / at / beyond the real limit.
+
+type stretchPlan struct {
+	R      []int           // frames per abstract level (index l-1)
+	M      []int           // cycle length per level: 1 recursion, >= R[l] distinct functions, else mutual recursion
+	Flat   map[string]bool // atoms that always recurse (locations without line info have one name)
+	Cap    int             // abstract LevelCap
+	Target int             // real depth the abstract level Cap is mapped to
+}
+
+func (pl *stretchPlan) display() map[string]interface{} {
+	return map[string]interface{}{"frames_per_level": pl.R, "cycle_length_per_level": pl.M, "abstract_level_cap": pl.Cap,
+		"level_cap_real_depth": pl.Target,
+		"reading":              "level l of every abstract call path is a chain of frames_per_level[l] real frames (cycle 1 = recursion, cycle = frames: distinct functions f·k); node [.. f #j] = j-th frame of the chain of f, [.. f] = its last frame"}
+}
+
+func (pl *stretchPlan) sym(atom string, l, j int) string {
+	k := 0
+	if !pl.Flat[atom] {
+		k = (j - 1) % pl.M[l-1]
+	}
+	if k == 0 {
+		return atom
+	}
+	return atom + "~" + strconv.Itoa(k)
+}
+
+func splitSym(sy string) (string, int) {
+	i := strings.LastIndex(sy, "~")
+	if i < 0 {
+		return sy, -1
+	}
+	k, err := strconv.Atoi(sy[i+1:])
+	if err != nil {
+		return sy, -1
+	}
+	return sy[:i], k
+}
+
+// chainID is the compact id of frame j of the chain of abstract node p (level len(p)).
+func (pl *stretchPlan) chainID(p []string, j int) []string {
+	if j >= pl.R[len(p)-1] {
+		return p
+	}
+	return append(append([]string{}, p...), "#"+strconv.Itoa(j))
+}
+
+// depthOf is the real depth of the node with compact id id.
+func (pl *stretchPlan) depthOf(id []string) int {
+	d, l := 0, 0
+	for _, e := range id {
+		if strings.HasPrefix(e, "#") {
+			j, _ := strconv.Atoi(e[1:])
+			return d - pl.R[l-1] + j
+		}
+		if l < len(pl.R) {
+			d += pl.R[l]
+		} else {
+			d++
+		}
+		l++
+	}
+	return d
+}
+
+func maxDepth(cs *Case) int {
+	m := 0
+	for _, p := range cs.Profs {
+		for _, s := range p {
+			if len(s.Stack) > m {
+				m = len(s.Stack)
+			}
+		}
+	}
+	return m
+}
+
+var nearTargets = []int{127, 128, 255, 256, 257, 600, 1023, 1024, 1025}
+var farTargets = []int{2047, 2048, 4095, 4096, 5000}
+
+func choosePlan(rng *rand.Rand, cs *Case, realCap int, flat map[string]bool) *stretchPlan {
+	maxd := maxDepth(cs)
+	if maxd == 0 {
+		return nil
+	}
+	c := cs.Cap
+	if c < 1 {
+		c = 2
+	}
+	pl := &stretchPlan{Flat: flat, Cap: c}
+	switch x := rng.Intn(100); {
+	case x < 68:
+		pl.Target = realCap + []int{-1, 0, 0, 1}[rng.Intn(4)]
+	case x < 92:
+		pl.Target = nearTargets[rng.Intn(len(nearTargets))]
+	default:
+		pl.Target = farTargets[rng.Intn(len(farTargets))]
+	}
+	if pl.Target < c {
+		pl.Target = c
+	}
+	n := c
+	if maxd > n {
+		n = maxd
+	}
+	pl.R = make([]int, n)
+	for i := range pl.R {
+		pl.R[i] = 1
+	}
+	// the levels 1..c share Target frames
+	spare := pl.Target - c
+	switch rng.Intn(4) {
+	case 0:
+		pl.R[0] += spare
+	case 1:
+		pl.R[c-1] += spare
+	case 2:
+		for i := 0; i < c; i++ {
+			pl.R[i] += spare / c
+		}
+		pl.R[rng.Intn(c)] += spare % c
+	default:
+		for i := 0; i < c-1 && spare > 0; i++ {
+			k := rng.Intn(spare + 1)
+			pl.R[i] += k
+			spare -= k
+		}
+		pl.R[c-1] += spare
+	}
+	// the levels beyond the clamp
+	budget := 9000 - pl.Target
+	for i := c; i < n; i++ {
+		r := 1
+		switch x := rng.Intn(100); {
+		case x < 45:
+		case x < 60:
+			r = 2
+		case x < 70:
+			r = 3
+		case x < 84:
+			r = 89
+		case x < 95:
+			r = 513
+		default:
+			r = 1500 + rng.Intn(1500)
+		}
+		if r > budget {
+			r = 1
+		}
+		budget -= r
+		pl.R[i] = r
+	}
+	pl.M = make([]int, n)
+	for i := range pl.M {
+		switch x := rng.Intn(100); {
+		case x < 40 || pl.R[i] == 1:
+			pl.M[i] = 1
+		case x < 75:
+			pl.M[i] = pl.R[i]
+		default:
+			pl.M[i] = 2 + rng.Intn(2)
+		}
+	}
+	return pl
+}
+
+// account books the depth classes a stretched case exercises.
+func (pl *stretchPlan) account(cl map[string]int, cs *Case, realCap int) {
+	for _, p := range cs.Profs {
+		for _, s := range p {
+			if len(s.Stack) == 0 {
+				continue
+			}
+			d := 0
+			for l := 1; l <= len(s.Stack); l++ {
+				d += pl.R[l-1]
+			}
+			switch {
+			case d < realCap:
+				cl["real_stack_below_level_clamp"]++
+			case d == realCap:
+				cl["real_stack_at_level_clamp"]++
+			case d == realCap+1:
+				cl["real_stack_one_beyond_level_clamp"]++
+			default:
+				cl["real_stack_beyond_level_clamp"]++
+			}
+			if d >= 2000 {
+				cl["real_stack_of_thousands_of_frames"]++
+			}
+			switch {
+			case len(s.Stack) < pl.Cap:
+				cl["abstract_stack_below_cap"]++
+			case len(s.Stack) == pl.Cap:
+				cl["abstract_stack_at_cap"]++
+			default:
+				cl["abstract_stack_beyond_cap"]++
+			}
+		}
+	}
+	for i := range pl.R {
+		switch {
+		case pl.R[i] == 1:
+		case pl.M[i] == 1:
+			cl["level_stretched_by_recursion"]++
+		case pl.M[i] >= pl.R[i]:
+			cl["level_stretched_by_distinct_functions"]++
+		default:
+			cl["level_stretched_by_mutual_recursion"]++
+		}
+	}
+}
+
+func (pl *stretchPlan) nodes(ns []Node, k int) []Node {
+	var out []Node
+	zero := make([]int64, k)
+	for _, n := range ns {
+		l := len(n.ID)
+		prev := n.Parent
+		for j := 1; j <= pl.R[l-1]; j++ {
+			id := pl.chainID(n.ID, j)
+			self := zero
+			if j == pl.R[l-1] {
+				self = n.Self
+			}
+			out = append(out, Node{ID: id, Parent: prev, Fn: pl.sym(n.Fn, l, j), Self: self, Total: n.Total})
+			prev = id
+		}
+	}
+	return out
+}
+
+func (pl *stretchPlan) layout(lo Layout) Layout {
+	out := Layout{Total: lo.Total, Maxself: lo.Maxself}
+	for l, lvl := range lo.Levels {
+		if l == 0 {
+			out.Levels = append(out.Levels, lvl)
+			continue
+		}
+		for j := 1; j <= pl.R[l-1]; j++ {
+			bars := make([]Bar, len(lvl))
+			for b, bar := range lvl {
+				bars[b] = Bar{Off: bar.Off, Total: bar.Total, Fn: pl.sym(bar.Fn, l, j)}
+				if j == pl.R[l-1] {
+					bars[b].Self = bar.Self
+				}
+			}
+			out.Levels = append(out.Levels, bars)
+		}
+	}
+	return out
+}
+
+// stretchCase is ProfTree!SBag / STree / SRows / SLevels applied to an exported case.
+func stretchCase(cs *Case, pl *stretchPlan) *Case {
+	out := &Case{Cfg: cs.Cfg, K: cs.K, Cap: cs.Cap, Sums: cs.Sums, Stacked: cs.Stacked, Roots: cs.Roots}
+	for _, p := range cs.Profs {
+		sp := []Sample{}
+		for _, s := range p {
+			d := len(s.Stack)
+			var rootFirst []string
+			for l := 1; l <= d; l++ {
+				for j := 1; j <= pl.R[l-1]; j++ {
+					rootFirst = append(rootFirst, pl.sym(s.Stack[d-l], l, j))
+				}
+			}
+			st := make([]string, len(rootFirst))
+			for i, f := range rootFirst {
+				st[len(rootFirst)-1-i] = f
+			}
+			sp = append(sp, Sample{Stack: st, Val: s.Val, N: s.N})
+		}
+		out.Profs = append(out.Profs, sp)
+	}
+	for _, t := range cs.Trees {
+		st := pl.nodes(t, cs.K)
+		if st == nil {
+			st = []Node{}
+		}
+		out.Trees = append(out.Trees, st)
+	}
+	out.Merged = pl.nodes(cs.Merged, cs.K)
+	for _, r := range cs.Rows {
+		for j := 1; j <= pl.R[len(r.ID)-1]; j++ {
+			out.Rows = append(out.Rows, RowRef{P: r.P, ID: pl.chainID(r.ID, j)})
+		}
+	}
+	for _, lo := range cs.Asc {
+		out.Asc = append(out.Asc, pl.layout(lo))
+	}
+	for _, lo := range cs.Desc {
+		out.Desc = append(out.Desc, pl.layout(lo))
+	}
+	return out
+}
+
+// slim keeps a report readable when the payload is a tree of thousands of nodes.
+func slim(v interface{}) interface{} {
+	if v == nil {
+		return nil
+	}
+	b, err := json.Marshal(v)
+	if err != nil || len(b) <= 3000 {
+		return v
+	}
+	return map[string]interface{}{"json_bytes": len(b), "head": string(b[:1500]), "tail": string(b[len(b)-600:])}
+}
+
+// probeLevelClamp asks the real writer where its node ids stop counting levels: one stack of distinct functions far
+// deeper than any plausible limit; the level field of the stored node ids (top 9 bits) saturates at the clamp.  The
+// answer only positions the depths the stretched cases aim at; 0 = no answer.
+func probeLevelClamp() int {
+	p := &pprof.Profile{PeriodType: &pprof.ValueType{Type: "cpu", Unit: "nanoseconds"}, Period: 1, TimeNanos: 1700000000000000000, DurationNanos: 1,
+		SampleType: []*pprof.ValueType{{Type: "cpu", Unit: "nanoseconds"}}}
+	smp := &pprof.Sample{Value: []int64{1}}
+	for i := 0; i < 3000; i++ {
+		f := &pprof.Function{ID: uint64(i + 1), Name: "probe.f" + strconv.Itoa(i)}
+		l := &pprof.Location{ID: uint64(i + 1), Line: []pprof.Line{{Function: f, Line: 1}}}
+		p.Function = append(p.Function, f)
+		p.Location = append(p.Location, l)
+		smp.Location = append(smp.Location, l)
+	}
+	p.Sample = []*pprof.Sample{smp}
+	pd, err := parseReal("binary", p)
+	if err != nil || pd == nil {
+		return 0
+	}
+	seen := map[uint64]bool{}
+	top := uint64(0)
+	for _, t := range pd.Tree {
+		lv := t.Field3 >> 55
+		seen[lv] = true
+		if lv > top {
+			top = lv
+		}
+	}
+	for lv := uint64(1); lv <= top; lv++ { // a level counter: every level up to the top one occurs
+		if !seen[lv] {
+			return 0
+		}
+	}
+	if top < 2 || top >= 3000 {
+		return 0
+	}
+	return int(top)
+}
+
 // ---------- one case ----------
 
 var routes = []string{"multipart", "binary", "binarygz"}
@@ -707,6 +1089,7 @@ type auxStats struct {
 	Runs, Panics, WeightMismatch, Errors int
 	PanicMsgs                            map[string]int
 	PanicByClass                         map[string]int
+	DeepRefusals                         map[string]int
 	FirstPanicCase, FirstMismatchCase    interface{}
 }
 
@@ -785,7 +1168,7 @@ func (w *worker) auxMergeV2(cs *Case, c *Concrete, pds []*wmodel.ProfileData, or
 	}
 }
 
-func (w *worker) runCase(ci int, lineHash uint64, cs *Case, seed int64, permmax int, allPermsUpTo int) {
+func (w *worker) runCase(ci int, lineHash uint64, cs *Case, seed int64, permmax int, allPermsUpTo int, deepmod int, realCap int) {
 	// seeded by the CONTENT of the case: the same case gets the same concretisation wherever it stands in the file
 	rng := rand.New(rand.NewSource(seed*1000003 + int64(lineHash>>1)))
 	atoms := atomsOf(cs)
@@ -800,14 +1183,6 @@ func (w *worker) runCase(ci int, lineHash uint64, cs *Case, seed int64, permmax 
 	np := len(cs.Profs)
 	w.res.Cases++
 	w.res.Profiles += np
-	mk := func(kind, sigTail, msg string, exp, obs interface{}) {
-		sig := kind
-		if sigTail != "" {
-			sig += "|" + sigTail
-		}
-		w.report(Mismatch{Signature: sig, Kind: kind, Case: ci, Cfg: cs.Cfg, Msg: msg, Abstract: cs.Profs, Concrete: c.display(), Expected: exp, Observed: obs})
-	}
-
 	// ---- classes (vacuity accounting) ----
 	nontrivial := false
 	for pi, p := range cs.Profs {
@@ -862,17 +1237,105 @@ func (w *worker) runCase(ci int, lineHash uint64, cs *Case, seed int64, permmax 
 		w.res.NonTrivial++
 	}
 
+	w.runVariant(ci, cs, cs.Profs, c, atoms, rng, permmax, allPermsUpTo, nil)
+
+	// ---- the same case with its call paths stretched to real depths (ProfTree!SBag / STree / SRows / SLevels) ----
+	if dm := pick(cs.Deep, deepmod); dm > 0 && (lineHash>>7+uint64(seed))%uint64(dm) == 0 {
+		rng2 := rand.New(rand.NewSource(seed*7919 + int64(lineHash>>2) + 0x5deece66d))
+		flat := map[string]bool{}
+		for _, a := range atoms {
+			flat[a] = c.Names[a] == noLine
+		}
+		pl := choosePlan(rng2, cs, realCap, flat)
+		if pl == nil {
+			return
+		}
+		cs2 := stretchCase(cs, pl)
+		atoms2 := atomsOf(cs2)
+		c2 := &Concrete{Names: map[string]string{}, Types: c.Types, Base: c}
+		for _, sy := range atoms2 {
+			base, k := splitSym(sy)
+			switch {
+			case k < 0:
+				c2.Names[sy] = c.Names[base]
+			default:
+				c2.Names[sy] = c.Names[base] + "\u00b7" + strconv.Itoa(k)
+			}
+		}
+		w.res.Classes["stretched_cases"]++
+		pl.account(w.res.Classes, cs, realCap)
+		w.runVariant(ci, cs2, map[string]interface{}{"profs": cs.Profs, "stretch": pl.display()}, c2, atoms2, rng2, 1, 0, pl)
+	}
+}
+
+func pick(a, b int) int {
+	if a > 0 {
+		return a
+	}
+	return b
+}
+
+// runVariant pushes one (plain or depth-stretched) case through the real writer and reader and compares with the
+// expectation the case carries.  abs is what a report shows as the abstract case.
+func (w *worker) runVariant(ci int, cs *Case, abs interface{}, c *Concrete, atoms []string, rng *rand.Rand, permmax int, allPermsUpTo int, pl *stretchPlan) {
+	np := len(cs.Profs)
+	stretched := pl != nil
+	if stretched {
+		w.res.Profiles += np
+	}
+	mk := func(kind, sigTail, msg string, exp, obs interface{}) {
+		sig := kind
+		if sigTail != "" {
+			sig += "|" + sigTail
+		}
+		if stretched {
+			if !(kind == "root_sum" && sigTail == "empty_stack") { // (that one is no matter of depth: same signature as in the plain case)
+				sig += "|deep"
+			}
+			exp, obs = slim(exp), slim(obs)
+		}
+		weight := 0
+		if stretched {
+			for _, r := range pl.R {
+				weight += r
+			}
+		}
+		w.report(Mismatch{Signature: sig, Kind: kind, Case: ci, Cfg: cs.Cfg, Msg: msg, Abstract: abs, Concrete: c.display(), Expected: exp, Observed: obs, Weight: weight})
+	}
+	at := func(id []string) string { // how a report names a node
+		if !stretched {
+			return fmt.Sprint(id)
+		}
+		return fmt.Sprintf("%v (frame %d of the real stack)", id, pl.depthOf(id))
+	}
+	trie := map[string][]string{}
+	fnOf := map[string]string{}
+	parentOf := map[string][]string{}
+	for _, n := range cs.Merged {
+		trie[key(n.Parent)+"\x00"+n.Fn] = n.ID
+		fnOf[key(n.ID)] = n.Fn
+		parentOf[key(n.ID)] = n.Parent
+	}
+	for _, t := range cs.Trees { // (= a subset of the merged tree; kept for a case whose expectation is inconsistent)
+		for _, n := range t {
+			if _, ok := fnOf[key(n.ID)]; !ok {
+				trie[key(n.Parent)+"\x00"+n.Fn] = n.ID
+				fnOf[key(n.ID)] = n.Fn
+				parentOf[key(n.ID)] = n.Parent
+			}
+		}
+	}
 	// ---- writer: every profile through every route ----
+	ok := true
 	pds := make([]*wmodel.ProfileData, np)
 	nodesOf := make([]map[uint64]*realNode, np)
 	byPath := make([]map[string]*realNode, np)
 	id2path := map[uint64][]string{}
 	path2id := map[string]uint64{}
-	ok := true
 	for pi, p := range cs.Profs {
 		pp := buildPprof(rng, c, cs.K, p)
 		for ri, route := range routes {
-			if ri == 2 && (ci+pi)%4 != 0 { // the gzip body on the binary route: every 4th profile
+			if ri == 2 && ((ci+pi)%4 != 0 || stretched) { // the gzip body on the binary route: every 4th profile
 				continue
 			}
 			pd, err := parseReal(route, pp)
@@ -886,11 +1349,22 @@ func (w *worker) runCase(ci int, lineHash uint64, cs *Case, seed int64, permmax 
 					fmt.Fprintln(os.Stderr, "driver error:", err)
 					os.Exit(3)
 				}
+				if stretched && kind == "parse_error" {
+					// a profile of thousands of frames may be refused (the multipart route limits the uncompressed body): nothing
+					// is stored, nothing to conserve; booked, and the routes that accept it carry the comparison
+					w.res.Classes["stretched_profile_refused_by_"+route]++
+					msg := err.Error()
+					if len(msg) > 120 {
+						msg = msg[:120]
+					}
+					w.aux.DeepRefusals[route+": "+msg]++
+					continue
+				}
 				mk(kind, "writer|"+route, fmt.Sprintf("route %s: the real parser rejected/crashed on a valid profile: %v", route, err), nil, nil)
 				ok = false
 				continue
 			}
-			nodes, e := resolve(c, atoms, cs.K, pd)
+			nodes, e := resolve(c, atoms, cs.K, pd, trie, stretched)
 			if e != "" {
 				mk("tree_mismatch", "structure|"+route, "stored tree is not a tree over the profile's functions: "+e, cs.Trees[pi], pd.Tree)
 				ok = false
@@ -909,21 +1383,34 @@ func (w *worker) runCase(ci int, lineHash uint64, cs *Case, seed int64, permmax 
 			for _, n := range cs.Trees[pi] {
 				exp[key(n.ID)] = n
 			}
+			var firstMissing *Node // stretched case: the shallowest missing frame stands for the missing rest of its chain
+			nMissing := 0
 			for k2, n := range exp {
 				r, present := bp[k2]
 				if !present {
-					mk("tree_mismatch", "missing_node|"+route, fmt.Sprintf("profile %d: call path %v is not stored", pi+1, n.ID), n, nil)
 					ok = false
+					if stretched {
+						nMissing++
+						if firstMissing == nil || pl.depthOf(n.ID) < pl.depthOf(firstMissing.ID) {
+							n2 := n
+							firstMissing = &n2
+						}
+						continue
+					}
+					mk("tree_mismatch", "missing_node|"+route, fmt.Sprintf("profile %d: call path %s is not stored", pi+1, at(n.ID)), n, nil)
 					continue
 				}
 				if !eqVec(r.Total, n.Total) {
-					mk("tree_mismatch", "total|"+route, fmt.Sprintf("profile %d: node %v total %v, spec %v", pi+1, n.ID, r.Total, n.Total), n, r)
+					mk("tree_mismatch", "total|"+route, fmt.Sprintf("profile %d: node %s total %v, spec %v", pi+1, at(n.ID), r.Total, n.Total), n, r)
 					ok = false
 				}
 				if !eqVec(r.Self, n.Self) {
-					mk("tree_mismatch", "self|"+route, fmt.Sprintf("profile %d: node %v self %v, spec %v", pi+1, n.ID, r.Self, n.Self), n, r)
+					mk("tree_mismatch", "self|"+route, fmt.Sprintf("profile %d: node %s self %v, spec %v", pi+1, at(n.ID), r.Self, n.Self), n, r)
 					ok = false
 				}
+			}
+			if firstMissing != nil {
+				mk("tree_mismatch", "missing_node|"+route, fmt.Sprintf("profile %d: call path %s is not stored (nor are %d deeper frames; %d of %d expected nodes are stored)", pi+1, at(firstMissing.ID), nMissing-1, len(exp)-nMissing, len(exp)), *firstMissing, nil)
 			}
 			for k2, r := range bp {
 				if _, present := exp[k2]; !present {
@@ -948,7 +1435,7 @@ func (w *worker) runCase(ci int, lineHash uint64, cs *Case, seed int64, permmax 
 				}
 				for j := range n.Total {
 					if n.Total[j] != n.Self[j]+ks[j] {
-						mk("conservation", "stored|"+route, fmt.Sprintf("profile %d: node %v type %d: total %d != self %d + children %d", pi+1, n.Path, j+1, n.Total[j], n.Self[j], ks[j]), nil, n)
+						mk("conservation", "stored|"+route, fmt.Sprintf("profile %d: node %s type %d: total %d != self %d + children %d", pi+1, at(n.Path), j+1, n.Total[j], n.Self[j], ks[j]), nil, n)
 						ok = false
 					}
 				}
@@ -964,7 +1451,10 @@ func (w *worker) runCase(ci int, lineHash uint64, cs *Case, seed int64, permmax 
 				}
 				mk("root_sum", class, fmt.Sprintf("profile %d (%s): root totals %v != sum of the sample values %v", pi+1, route, roots, cs.Sums[pi]), cs.Sums[pi], roots)
 			}
-			if ri == 0 {
+			if pds[pi] == nil { // the first route that took the profile feeds the reader part
+				if stretched {
+					w.res.Classes["stretched_profile_stored_by_"+route]++
+				}
 				pds[pi], nodesOf[pi], byPath[pi] = pd, nodes, bp
 				for _, n := range nodes {
 					if old, seen := path2id[key(n.Path)]; seen && old != n.ID {
@@ -983,6 +1473,12 @@ func (w *worker) runCase(ci int, lineHash uint64, cs *Case, seed int64, permmax 
 	}
 	if !ok {
 		return // the reader part needs the stored trees to be the spec's trees (row references are by call path)
+	}
+	for pi := range pds {
+		if pds[pi] == nil { // (stretched case refused by every route)
+			w.res.Classes["stretched_case_refused_by_every_route"]++
+			return
+		}
 	}
 
 	// ---- reader: merge + layout ----
@@ -1018,7 +1514,7 @@ func (w *worker) runCase(ci int, lineHash uint64, cs *Case, seed int64, permmax 
 			for i, r := range refs {
 				rows[i] = rowFor(r)
 			}
-			out := runReader(c, atoms, id2path, rows, chunks, fns, ty)
+			out := runReader(c, atoms, id2path, fnOf, rows, chunks, fns, ty)
 			w.res.MergeRuns++
 			orders++
 			okind := strings.SplitN(order, ":", 2)[0]
@@ -1062,7 +1558,7 @@ func (w *worker) runCase(ci int, lineHash uint64, cs *Case, seed int64, permmax 
 				if !eqLevels(out.Levels, expLayout.Levels) {
 					mk("layout_mismatch", okind, fmt.Sprintf("type %d order %s: levels differ from the spec's layout", ty+1, order), expLayout.Levels, out.Levels)
 				}
-			} else {
+			} else if !stretched { // (TLC validates observations of the small cases; the stretched ones are compared here)
 				w.resv[cs.K].offer(rng, func() Obs {
 					if refs == nil {
 						refs = []RowRef{}
@@ -1078,7 +1574,11 @@ func (w *worker) runCase(ci int, lineHash uint64, cs *Case, seed int64, permmax 
 			return []int{n}
 		}
 		chunking := func(n int) []int {
-			switch rng.Intn(3) {
+			mode := rng.Intn(3)
+			if mode == 1 && n > 256 { // (every call walks all function rows: row-by-row calls only for the shorter row lists)
+				mode = 2
+			}
+			switch mode {
 			case 0:
 				return one(n)
 			case 1:
@@ -1118,6 +1618,16 @@ func (w *worker) runCase(ci int, lineHash uint64, cs *Case, seed int64, permmax 
 		var permute func(k int)
 		permute = func(k int) {
 			if k == np {
+				if stretched && np > 1 { // long rows: the given order of the profiles and its reverse only
+					asc, desc := true, true
+					for i := range perm {
+						asc = asc && perm[i] == i
+						desc = desc && perm[i] == np-1-i
+					}
+					if !asc && !desc {
+						return
+					}
+				}
 				var refs []RowRef
 				var ch []int
 				for _, pi := range perm {
@@ -1130,7 +1640,7 @@ func (w *worker) runCase(ci int, lineHash uint64, cs *Case, seed int64, permmax 
 					ch = one(len(refs))
 				}
 				check(fmt.Sprintf("writer:%v", perm), refs, ch, nil)
-				if ty == 0 {
+				if ty == 0 && !stretched {
 					w.auxMergeV2(cs, c, pds, perm)
 				}
 				return
@@ -1199,10 +1709,14 @@ func (w *worker) runCase(ci int, lineHash uint64, cs *Case, seed int64, permmax 
 			}
 		}
 	}
+	if stretched {
+		w.res.Classes["stretched_cases_through_reader"]++
+		w.res.StretchedNodes += len(cs.Merged)
+	}
 	if orders > w.res.OrdersPerCaseMx {
 		w.res.OrdersPerCaseMx = orders
 	}
-	if w.res.Sample == nil && np >= 1 && len(cs.Merged) >= 3 {
+	if !stretched && w.res.Sample == nil && np >= 1 && len(cs.Merged) >= 3 {
 		var tr []interface{}
 		for _, t := range pds[0].Tree {
 			tr = append(tr, map[string]interface{}{"parent": fmt.Sprint(t.Field1), "fn": fmt.Sprint(t.Field2), "node": fmt.Sprint(t.Field3), "values": t.ValueArrTuple, "path": id2path[t.Field3]})
@@ -1227,6 +1741,8 @@ func main() {
 	allperms := fs.Int("allperms", 24, "run ALL row orders of a case when there are at most this many")
 	obsmax := fs.Int("obsmax", 1500, "observations kept per number of sample types")
 	nw := fs.Int("workers", runtime.NumCPU(), "goroutines")
+	deepmod := fs.Int("deepmod", 8, "every n-th case (by content hash and seed) is also run depth-stretched; 0 = only the cases marked deep")
+	capDefault := fs.Int("levelclamp", 511, "level clamp of the node ids (used when the writer does not reveal it)")
 	fs.Parse(os.Args[2:])
 
 	// the parsers print diagnostics to stdout; the driver's own output goes to files
@@ -1234,6 +1750,11 @@ func main() {
 	stdout := os.Stdout
 	os.Stdout = devnull
 
+	realCap := *capDefault
+	probed := probeLevelClamp()
+	if probed > 0 {
+		realCap = probed
+	}
 	f, err := os.Open(*casesP)
 	if err != nil {
 		fmt.Fprintln(os.Stderr, err)
@@ -1263,7 +1784,7 @@ func main() {
 				}
 				h := fnv.New64a()
 				h.Write(j.line)
-				w.runCase(j.ci, h.Sum64(), &cs, *seed, *permmax, *allperms)
+				w.runCase(j.ci, h.Sum64(), &cs, *seed, *permmax, *allperms, *deepmod, realCap)
 			}
 		}(workers[i])
 	}
@@ -1286,7 +1807,7 @@ func main() {
 	}
 	// merge the workers
 	res := newResult()
-	aux := auxStats{PanicMsgs: map[string]int{}, PanicByClass: map[string]int{}}
+	aux := auxStats{PanicMsgs: map[string]int{}, PanicByClass: map[string]int{}, DeepRefusals: map[string]int{}}
 	resv := map[int]*reservoir{}
 	for _, w := range workers {
 		r := w.res
@@ -1296,6 +1817,7 @@ func main() {
 		res.MergeRuns += r.MergeRuns
 		res.CanonLayouts += r.CanonLayouts
 		res.NonTrivial += r.NonTrivial
+		res.StretchedNodes += r.StretchedNodes
 		for k, v := range r.Classes {
 			res.Classes[k] += v
 		}
@@ -1322,6 +1844,9 @@ func main() {
 		for k, v := range w.aux.PanicByClass {
 			aux.PanicByClass[k] += v
 		}
+		for k, v := range w.aux.DeepRefusals {
+			aux.DeepRefusals[k] += v
+		}
 		if aux.FirstPanicCase == nil {
 			aux.FirstPanicCase = w.aux.FirstPanicCase
 		}
@@ -1337,7 +1862,7 @@ func main() {
 		}
 	}
 	// smallest witnesses first
-	size := func(m Mismatch) int { b, _ := json.Marshal(m.Abstract); return len(b) }
+	size := func(m Mismatch) int { return absSize(&m) }
 	sort.SliceStable(res.Mismatches, func(i, j int) bool {
 		if si, sj := size(res.Mismatches[i]), size(res.Mismatches[j]); si != sj {
 			return si < sj
@@ -1382,6 +1907,8 @@ func main() {
 		res.Aux[fmt.Sprintf("obs_candidates_k%d", k)] = r.seen
 	}
 	res.Aux["profile_merge_v2"] = aux
+	res.Aux["stretched_profiles_refused"] = aux.DeepRefusals
+	res.LevelClamp = map[string]int{"probed_from_the_writer": probed, "used": realCap}
 	b, _ := json.MarshalIndent(res, "", " ")
 	if err := os.WriteFile(*outP, b, 0o644); err != nil {
 		fmt.Fprintln(os.Stderr, err)
